@@ -45,6 +45,12 @@ def verify_contract(db, cc, target=None, prefix=None, engine_cls=Engine, fixed=N
                 ty = "obj"
             else:
                 raise Unsupported("no type declared for parameter %s of %s" % (p, target))
+        if fixed and ("type:" + p) in fixed:
+            ty = fixed["type:" + p]
+            if ty is None:
+                st.vars[p] = None
+                ex.inputs.append((p, ("const",), None))
+                continue
         if fixed and p in fixed:
             st.vars[p] = fixed[p]
             ex.inputs.append((p, ("const",), fixed[p]))
@@ -399,8 +405,74 @@ def verify_tables(db, cc):
         ob = Obligation("%s#table#%s" % (cc.target, cl.name), "post", [], z3.BoolVal(val), cc.target, cl.lineno,
                         cl.text() + (" [evaluation error: %s]" % getattr(cl, "err", "") if getattr(cl, "err", None) else ""), [])
         obs.append(ob)
+    if cc.domains:
+        obs += schema_domain_obligations(db, cc, node)
     seg = ast.get_source_segment(src, node) or ""
     rec = {"qualname": cc.target, "file": f.replace(extract.REPO + "/", ""), "line": node.lineno,
            "sha256": hashlib.sha256(seg.encode()).hexdigest(), "numba": False,
-           "dropped": ["everything but the literal class-level assignments and the method names"], "no_fuzz": True}
+           "dropped": ["everything but the literal class-level assignments and the method names"]
+           + (["schema domains: everything but the json_checker schema entries And(<type>, <lambda>) of the class"] if cc.domains else []),
+           "no_fuzz": True}
     return obs, rec
+
+
+def schema_entries(node, key):
+    """every expression the class body stores under schema key `key`: values of dict literals and of <name>["key"] = ... stores"""
+    out = []
+    for n in ast.walk(node):
+        if isinstance(n, ast.Dict):
+            for k_, v_ in zip(n.keys, n.values):
+                if isinstance(k_, ast.Constant) and k_.value == key:
+                    out.append(v_)
+        elif isinstance(n, ast.Assign) and len(n.targets) == 1 and isinstance(n.targets[0], ast.Subscript) \
+                and isinstance(n.targets[0].slice, ast.Constant) and n.targets[0].slice.value == key \
+                and isinstance(n.targets[0].value, ast.Name) and "schema" in n.targets[0].value.id:
+            out.append(n.value)
+    return [v_ for v_ in out if isinstance(v_, ast.Call) and isinstance(v_.func, ast.Name) and v_.func.id in ("And", "Or")]
+
+
+def schema_domain_obligations(db, cc, node, engine_cls=Engine):
+    """for all x of the declared type:  <predicate of the schema entry>(x)  <=>  <documented domain>(x).
+    json_checker is assumed: And(T, f) accepts x iff isinstance(x, T) and bool(f(x))."""
+    obs = []
+    for (key, ty, spec_lambda, lineno) in cc.domains:
+        oid = "%s#table#domain.%s" % (cc.target, key)
+        text = "schema[%r] == And(%s, f) with f(x) <=> %s" % (key, ty, ast.unparse(spec_lambda.body))
+        entries = schema_entries(node, key)
+        shape_ok = (len(entries) == 1 and entries[0].func.id == "And" and len(entries[0].args) == 2
+                    and isinstance(entries[0].args[0], ast.Name) and entries[0].args[0].id == ty
+                    and isinstance(entries[0].args[1], ast.Lambda) and len(entries[0].args[1].args.args) == 1
+                    and isinstance(spec_lambda, ast.Lambda) and len(spec_lambda.args.args) == 1)
+        if not shape_ok:
+            obs.append(Obligation(oid, "post", [], z3.BoolVal(False), cc.target, lineno,
+                                  text + " [the class has %d schema entr%s for this key%s]"
+                                  % (len(entries), "y" if len(entries) == 1 else "ies",
+                                     "" if len(entries) != 1 else ": " + ast.unparse(entries[0])), []))
+            continue
+        code_lambda = entries[0].args[1]
+        ex = engine_cls(db, None, cc, prefix=cc.target)
+        ex.local_cells, ex.local_iter_cells, ex.assignable_cells = set(), set(), set()
+
+        class _F:
+            qual = cc.target
+            lineno = node.lineno
+        ex.f = _F()
+        st = State()
+        x = fresh_of_type(st, "x", ty, ex.inputs)
+        ex.entry_vars = {"x": x}
+        try:
+            st.vars = {code_lambda.args.args[0].arg: x}
+            was = ex.spec
+            ex.spec = False
+            got = as_bool(ex.eval(code_lambda.body, st))      # python semantics of the real predicate (truthiness of its value)
+            ex.spec = was
+            st.vars = {spec_lambda.args.args[0].arg: x}
+            want = as_bool(ex.eval_spec(spec_lambda.body, st))
+        except Unsupported as e:
+            obs.append(Obligation(oid, "post", [], z3.BoolVal(False), cc.target, lineno, text + " [not evaluated: %s]" % e, []))
+            continue
+        ob = Obligation(oid, "post", list(ex.axioms) + list(st.pc), zb(got) == zb(want), cc.target, lineno,
+                        text + "   (code: %s)" % ast.unparse(code_lambda.body), ex.inputs)
+        obs.append(ob)
+        obs += [o for o in ex.obligations]   # obligations raised while evaluating the real predicate (division by zero ...)
+    return obs
